@@ -140,6 +140,8 @@ def configs(tier):
     add("n4|names=s,f", n=4, plan=((0, 2, 2, 3),), names=("s", "f"))
     add("n4|standardize", n=4, plan=((0, 1, 1, 3),), flags={"standardize": True})
     add("n4|seed=0", n=4, plan=((0, 1, 2, 2),), seed=0)
+    add("n4|center=False", n=4, plan=((0, 1, 1, 3),), flags={"center": False})  # members are EOF analyses (centred) of the resample whatever the base model's flag
+    add("n4|center=False|standardize", n=4, plan=((0, 2, 2, 3),), flags={"center": False, "standardize": True})
     if tier == "thorough":
         add("n4|3d layout", n=4, p=4, plan=((1, 1, 0, 3),), layout="3d")
         add("n4|three members", n=4, plan=((0, 1, 1, 3), (2, 2, 0, 1), (3, 0, 3, 0)))
